@@ -124,6 +124,11 @@ def oracle(case):
         return 'selector-key-left'
     if r['leaked']:
         return 'socket-left-open'
+    if r.get('fd_growth', 0) > 0:
+        # counted with the cycle collector switched off: release may not wait for it
+        return 'descriptor-left-open-until-gc'
+    if r.get('late'):
+        return 'not-torn-down-after-upstream-close'
     return _closes_sig(r)
 
 
@@ -144,6 +149,10 @@ def all_abort_cases():
                             'sched': []})
         for oc in S.CONNECT_OUTCOMES:
             out.append({'kind': 'real', 'conns': [_conn(role, 0, connect=[oc], adv=1, kind='connect')], 'sched': []})
+        for v in S.prompt_variants(role, 0):
+            # every web-plugin order: the reverse proxy first / last among the web plugins
+            out.append({'kind': 'real', 'conns': [v], 'sched': []})
+            out.append({'kind': 'real', 'conns': [v], 'sched': [], 'order': 'rp-last'})
         for v in S.backlog_variants(role, 0):
             out.append({'kind': 'real', 'conns': [v], 'sched': []})
             if v.get('noread'):
@@ -168,7 +177,8 @@ def corpus():
 def generate(rng, tier):
     big = tier == 'thorough'
     for c in all_abort_cases():
-        backlog = c['conns'][0].get('kind') == 'backlog'
+        k0 = c['conns'][0]
+        backlog = k0.get('kind') in ('backlog', 'prompt') or k0['role'][:3] in ('rc:', 'upg')
         if big or backlog or rng.random() < 0.5:
             yield c
         if big and not backlog:
@@ -184,9 +194,12 @@ def generate(rng, tier):
         c = S.gen_adversary(rng, 0) if rng.random() < 0.7 else _conn(rng.choice(S.ROLES), 0)
         yield {'kind': 'repeat', 'conn': c, 'n': 20 if not big else rng.choice([100, 120, 200]),
                'final': rng.choice([None, None, 'reset', 'idle'])}
+    for role in S.REALCONN_ROLES:
+        yield {'kind': 'repeat', 'conn': _conn(role, 0), 'n': 12 if not big else 100}
     if big:
         for role in S.ROLES:
             yield {'kind': 'repeat', 'conn': _conn(role, 0), 'n': 200}
+            yield {'kind': 'repeat', 'conn': _conn(role, 0), 'n': 50, 'order': 'rp-last'}
 
 
 def classify(case, sig):
